@@ -2689,6 +2689,12 @@ impl Melda {
         Some(v)
     }
 
+    /// Committed object index and staged object digests of the data storage
+    pub fn verif_data_index(&self) -> (Vec<(String, String, usize, usize)>, Vec<String>) {
+        let d = self.data.read().unwrap();
+        (d.verif_index(), d.verif_stage_keys())
+    }
+
     /// Applied packs
     pub fn verif_applied_packs(&self) -> Vec<String> {
         self.data
